@@ -13,6 +13,16 @@ def configs(tier, seed):
                 batches = [[0]] if n >= 4 else [[0, 1]]
                 cfgs.append(dict(kind="predict", n=n, k=k, model=model, branch=branch, nq=2 if n < 4 else 1,
                                  batches=batches, wstride=1, weight=(n ** k) * 20, timeout_ms=60000))
+    # the samples stand for permuted rows of a larger table (Node.idx != position, query identifiers interleaved)
+    perm = [(2, 1, [3, 0], [1, 2]), (3, 2, [4, 0, 2], [3, 1])]
+    if tier != "quick":
+        perm += [(3, 3, [4, 0, 2], [3, 1]), (4, 2, [5, 1, 0, 3], [4, 2]), (4, 3, [5, 1, 0, 3], [2, 4])]
+    for n, k, idx, qidx in perm:
+        for model in ("knn", "uns"):
+            for branch in ("pre", "fn"):
+                cfgs.append(dict(kind="predict", n=n, k=k, model=model, branch=branch, nq=2, idx=idx, qidx=qidx,
+                                 batches=[[0, 1]] if n < 4 else [[1]], wstride=1, weight=(n ** k) * 20,
+                                 timeout_ms=60000))
     return cfgs
 
 
@@ -23,7 +33,7 @@ def signature(prop, cfg, viol):
 
 def describe(v, tier):
     v.bounds = dict(state="injected fitted model: n<=4 training samples, k<=2 (quick) / n<=5, k<=3 (thorough); symbolic costs, labels, cluster ids, constant>0, min_density<=max_density",
-                    queries="batches of 1-2 symbolic query distance vectors")
+                    queries="batches of 1-2 symbolic query distance vectors; also with training/query samples standing for permuted, interleaved rows of a larger table (Node.idx != position)")
     v.assumptions = ["exp uninterpreted (congruence + monotonicity); k <= n",
                      "0 <= distances < FLOAT_MAX, 0 <= cost <= MAX_DENSITY, 0 <= min_density <= max_density <= 1, 0 < constant <= 1e6"]
     v.outside = ["k > n", "n > 5"]
